@@ -326,6 +326,10 @@ func (vr *variableResolver) resolve(ctx *ExecutionContext) (*Value, error) {
 					case reflect.Struct:
 						current = current.FieldByName(part.s)
 					case reflect.Map:
+						if !reflect.TypeOf(part.s).AssignableTo(current.Type().Key()) {
+							// e.g. a name used on a map with int keys: no such entry
+							return AsValue(nil), nil
+						}
 						current = current.MapIndex(reflect.ValueOf(part.s))
 					default:
 						return nil, fmt.Errorf("can't access a field by name on type %s (variable %s)",
